@@ -118,6 +118,10 @@ func rejectClass(reg kit.M) string {
 	case !kit.Bool(reg["abs"]):
 		return "relative-path"
 	case !Supported[kit.Str(reg["m"])]:
+		// naming only: another spelling of a supported verb ("get", "Post") is its own class
+		if m := kit.Str(reg["m"]); Supported[strings.ToUpper(m)] {
+			return "unsupported-method:case-variant"
+		}
 		return "unsupported-method"
 	}
 	return "duplicate"
